@@ -4,7 +4,7 @@ import os
 import random
 
 from harness.legs import cfg_text, leg_m, leg_mutant, leg_r
-from harness.vloop import VLoop
+from harness.vloop import Falsy, VLoop
 
 SPEC = "Timeout"
 MANIFEST = dict(
@@ -47,13 +47,17 @@ class TimeoutDriver:
         self.gate = None
         self.got = None
         self.got_at = None
-        self.VAL, self.ERR, self.BASE = object(), Err("fn failed"), Base("fn base")
+        self.VAL, self.ERR, self.BASE = Falsy("value"), Err("fn failed"), Base("fn base")
         drv = self
 
         async def fn(a, *, k):
             assert (a, k) == (1, 2)
-            if drv.warmup:
+            if drv.warmup == "first":
                 return "warm"
+            if drv.warmup == "bystander":
+                drv.warmup = False             # the next invocation is the call under test
+                await drv.by_gate              # another call through the same wrapper, overlapping the one under test
+                return "bystander"
             while True:
                 gate = drv.gate = loop.create_future()
                 try:
@@ -84,11 +88,16 @@ class TimeoutDriver:
         wrapped = timeout(float(self.T))(fn)
         # the wrapper object is used once before the call under test (a call that ends normally at once): nothing of
         # that first call - a timer, a result, a callback - may be left to influence the second one
-        self.warmup = True
+        self.warmup = "first"
         first = loop.create_task(wrapped(1, k=2))
         loop.quiesce()
-        self.warmup = False
         self.warm_ok = first.done() and not first.cancelled() and first.exception() is None and first.result() == "warm"
+        # ... and a second call through the same wrapper overlaps the call under test: it starts before it and ends
+        # (normally) right after the call under test has started - two calls share nothing but the wrapped function
+        self.warmup = "bystander"
+        self.by_gate = loop.create_future()
+        bystander = loop.create_task(wrapped(1, k=2))
+        loop.quiesce()
 
         async def outer():
             try:
@@ -98,6 +107,11 @@ class TimeoutDriver:
             drv.got_at = loop.time()
 
         self.caller = loop.create_task(outer())
+        loop.quiesce()
+        self.by_gate.set_result(None)
+        loop.quiesce()
+        self.warm_ok = self.warm_ok and bystander.done() and not bystander.cancelled() \
+            and bystander.exception() is None and bystander.result() == "bystander"
         loop.quiesce()
 
     def _policy(self):
